@@ -88,6 +88,11 @@ inductive Flow where
   | x | y | bad
 deriving DecidableEq, Repr
 
+/-- `freq(atype=1..4)` -/
+inductive AType where
+  | a1 | a2 | a3 | a4
+deriving DecidableEq, Repr
+
 /-- The definition: what the caller supplied to `Panel(...)` / set before the first evaluation. -/
 structure Def where
   model : MVal          -- keyword `model`
@@ -534,7 +539,7 @@ inductive Op where
   | kA (sizeArg : Bool)
   | cA
   | lb
-  | freq (atype : Fin 4)     -- `freq(atype = atype+1)`
+  | freq (atype : AType)
   | fext (sizeArg : Bool)
   | fint (fGiven : Bool)
   | static
@@ -601,11 +606,11 @@ def prog : Op → List Instr
   | .lb => progK0 false ++ [.drop] ++ progKG0 false ++
       [.drop, .readReg .k0, .readReg .kG0, .kern .eigLb, .touch .eigvals, .touch .eigvecs]
   | .freq a => progK0 false ++ [.drop] ++ progKM false ++ [.drop] ++
-      (match a.val with
-       | 0 => progKG0 false ++ [.drop] ++ progKA false ++ [.drop, .readReg .k0, .readReg .kA, .readReg .kG0]
-       | 1 => progKA false ++ [.drop, .readReg .k0, .readReg .kA]
-       | 2 => progKG0 false ++ [.drop, .readReg .k0, .readReg .kG0]
-       | _ => [.readReg .k0]) ++
+      (match a with
+       | .a1 => progKG0 false ++ [.drop] ++ progKA false ++ [.drop, .readReg .k0, .readReg .kA, .readReg .kG0]
+       | .a2 => progKA false ++ [.drop, .readReg .k0, .readReg .kA]
+       | .a3 => progKG0 false ++ [.drop, .readReg .k0, .readReg .kG0]
+       | .a4 => [.readReg .k0]) ++
       [.readReg .kM, .kern .eigFreq, .touch .eigvals, .touch .eigvecs]
   | .fext sa => progFext sa
   | .fint fg =>
